@@ -90,7 +90,7 @@ class Operator(Token):
     def ast(self, tokens, stack, builder):
         super(Operator, self).ast(tokens, stack, builder)
         self.update_name(tokens, stack)
-        if self.name == '%':  # Postfix: it needs the end of an operand.
+        if self.name not in ('u-', 'u+'):  # It needs the end of an operand.
             from .operand import Operand
             t = tokens[-2] if len(tokens) > 1 else None
             b = isinstance(t, Parenthesis) and t.has_end
